@@ -807,6 +807,40 @@ def check(ctx):
            len(em_st) == 1 and is_call(em_st[0], "liesel.goose.epoch.EpochManager")
            and em_st[0][2] == (n("epoch_configs"),),
            detail=short(em_st[0], 80) if em_st else "no store", stmt="engine epoch manager")
+    # the kernel list is fixed once the sequence is made: kernel i owns state slot i for
+    # the whole run, so nothing may reorder / grow / shrink the list (get_kernels() hands
+    # out the list itself, not a copy)
+    SELF_ = n("self")
+    klists = {("a", SELF_, "_kernels"),
+              ("a", ("a", SELF_, "_kernel_sequence"), "_kernels"),
+              ("call", ("a", ("a", SELF_, "_kernel_sequence"), "get_kernels"), (), ()),
+              ("call", ("a", SELF_, "get_kernels"), (), ())}
+    MUTATORS = {"sort", "append", "extend", "insert", "pop", "remove", "reverse", "clear",
+                "__setitem__", "__delitem__", "__iadd__"}
+    kseq = repo.cls("liesel.goose.kernel_sequence.KernelSequence")
+    muts_k, n_scanned = [], 0
+    for ci_ in (eng, kseq):
+        for mname, fis in sorted(ci_.methods.items()):
+            for fi_ in fis:
+                if fi_.name == "__init__" and ci_ is kseq:
+                    continue
+                n_scanned += 1
+                rk_ = evaluate(repo, fi_)
+                for t, nd, _ in rk_.calls:
+                    if t[0] == "call" and t[1][0] == "a" and t[1][2] in MUTATORS \
+                            and t[1][1] in klists:
+                        muts_k.append((fi_, nd, pretty(t)[:80]))
+                for loc, _, nd, _ in rk_.stores:
+                    if loc[0] == "s" and loc[1] in klists:
+                        muts_k.append((fi_, nd, "item store " + pretty(loc)[:60]))
+                    if loc in klists:
+                        muts_k.append((fi_, nd, "rebinds " + pretty(loc)[:60]))
+    for fi_, nd, what in muts_k:
+        ctx.ob("C07.R1", fi_, "the kernel list is not reordered or changed after the sequence "
+                              "was created (kernel i keeps state slot i)", False, node=nd,
+               detail=what, stmt="kernel list mutated: " + what)
+    ctx.ob("C07.R1", eng, f"no method of Engine / KernelSequence mutates the kernel list "
+                          f"({n_scanned} methods)", not muts_k, nontrivial=False)
     # ------------------------------------------------------------- R6 / R7 dispatch
     dispatch_obligations(ctx, "C07.R6", "C07.R7")
 
